@@ -152,3 +152,53 @@ func init() {
 		rules:      []func(*Ctx){ruleMinkowski("C08"), ruleXY("C08.xy", []string{"minkowski.go"}, 2)},
 	})
 }
+
+func init() {
+	register(&propDef{
+		id: "C15",
+		explanation: "Decides structural clauses of C15: (subseq) every vertex appended to the result is an element of the input path; (only) in the main scan a vertex is dropped exactly when isCollinear(last kept vertex, path[i], path[i+1]) holds; (wrap) each wrap-around scan of a closed path compares the moving vertex with a FIXED anchor on the other side of the start index; (open) an open path's last point is appended unconditionally; (pred) the collinearity predicate is exact: triSign is the sign function per cell and the products are 128-bit with no float detour. Does NOT decide 'no three consecutive collinear vertices remain', idempotence or the wrap-around bookkeeping as a whole.",
+		notDecided: []string{"no three cyclically consecutive result vertices are collinear", "idempotence of trimming", "area and winding preservation (follow from the clauses above only if the wrap-around bookkeeping is right)", "result empty when fewer than 3 vertices remain"},
+		rules: []func(*Ctx){
+			ruleTrimCollinear("C15"), ruleTriSign("C15.pred"),
+			ruleExactFloat("C15.pred.float", 29, []string{"isCollinear", "productsAreEqual"}, "collinearity must be decided on the exact integer cross product"),
+			ruleWidth("C15.pred.int", 29, []string{"isCollinear", "productsAreEqual", "TrimCollinear64"}, 4, "a wrapped difference or product makes non-collinear points look collinear"),
+		},
+	})
+	register(&propDef{
+		id: "C16",
+		explanation: "Decides structural clauses of C16: (subseq) the result is one in-order pass appending path[i] exactly when flags[i] is false, and paths with fewer than 4 points are returned unchanged; (ends) for open paths the two end cells start at MaxFloat64 and no later store refreshes a cell without idx != 0 && idx != high, for closed paths both neighbours are refreshed after every removal; (sibling) SimplifyPath64/SimplifyPaths64 equal SimplifyPathD/SimplifyPathsD modulo types and helper names; (diff) the distance reads coordinates only through same-axis differences, hence is translation invariant; (width) at |coord| <= 2^29 the integer distance has no wrapped int64 intermediate and its squared cross product is exact in sign and zero-ness (epsilon 0 removes only exactly collinear vertices). Does NOT decide the greedy removal order, 'no retained vertex within epsilon' or scale-by-2^k invariance of float rounding.",
+		notDecided: []string{"the greedy order of removals (getNext/getPrior bookkeeping)", "on return no retained vertex is within epsilon of its neighbours' line", "invariance under scaling by a power of two (float rounding)"},
+		rules: []func(*Ctx){
+			ruleSimplify("C16"),
+			ruleSibling("C16.sibling", [][2]string{{"SimplifyPath64", "SimplifyPathD"}, {"SimplifyPaths64", "SimplifyPathsD"}},
+				map[string]string{"Path64": "PathD", "Paths64": "PathsD", "PerpendicDistFromLineSqr64": "PerpendicDistFromLineSqrD", "SimplifyPath64": "SimplifyPathD"},
+				"the two variants implement one algorithm; where they differ one of them is wrong (or both are and the property is judged on each)"),
+			ruleWidth("C16.width", 29, []string{"PerpendicDistFromLineSqr64", "SimplifyPath64"}, 4, "a wrapped int64 intermediate in the distance makes SimplifyPath64 keep or drop the wrong vertices from coordinates around 5*10^4 on"),
+			ruleExactNumerator("C16.exact", 29, []string{"PerpendicDistFromLineSqr64"}, "with epsilon 0 only exactly collinear vertices may disappear: the cross product must be exact in zero-ness at 2^29"),
+		},
+	})
+}
+
+func init() {
+	register(&propDef{
+		id: "C03",
+		explanation: "Decides structural clauses of C03: (panics) the inventory of explicit panics is exactly the reviewed one (the documented precision-range panic, plus four index-error panics whose structural premises — index shape and guards — are re-checked); (make) every make() length/capacity is provably non-negative by interval analysis with dominating-branch refinement; (div) every integer division/remainder has a non-zero constant divisor; (flag) c.succeeded is assigned on every path through executeInternal and read only afterwards; (ring) every ring walk exits on cursor==start (no one-node walks, no walks that cannot terminate on a well-formed ring). Does NOT decide nil-dereference freedom of the linked structures, variable-index safety or termination of invariant-dependent scans.",
+		notDecided: []string{"nil-dereference freedom of AEL/SEL/OutPt links", "variable-index safety (intersectList[j] scan, path[i] in the rectangle scans)", "termination of fixSelfIntersects / doMaxima / processIntersectList scans", "reachability of succeeded=false in addLocalMaxPoly", "memory/time blow-up for absurd radii (Ellipse step count)"},
+		rules: []func(*Ctx){
+			rulePanics("C03.panics"), ruleMakeSizes("C03.make"), ruleConstIndex("C03.index", map[string]string{
+				"TrimCollinear64:path": "path[0] == path[1] is evaluated only after `l < 2` was false, and l never exceeds len(path) (it starts there and is only decremented), so len(path) >= 2",
+			}), ruleDivisors("C03.div"), ruleSucceeded("C03.flag"), ruleRing("C03.ring", 25, whyRing),
+		},
+	})
+	register(&propDef{
+		id: "C06",
+		explanation: "Decides structural clauses of C06: (mirror) in getNextLocation, getIntersection and getLocation the Right arm is the left/right mirror image of the Left arm, Bottom of Top, and Top the diagonal image of Left — the clipper is equivariant under the rectangle's symmetries; (corner-live) no addCorner/addCornerLocation call is constant-dead; (fast) pathBounds is the bounds of the current path, disjoint paths are skipped and contained paths are returned as the input path itself; (bounds) the bounds accumulators start at the right extremes with independent per-axis updates. Does NOT decide the crossing-history logic of executeInternal nor checkEdges/tidyEdgePair.",
+		notDecided: []string{"crossing-history logic of executeInternal (firstCross/startLocs bookkeeping)", "checkEdges / tidyEdgePair re-joining (tidyEdgePair tests horizontal overlap on vertical edges: only region-equivalent differences could be produced)", "1-unit rounding of intersection points"},
+		rules: []func(*Ctx){
+			ruleRectMirror("C06.mirror"),
+			ruleDead("C06.corner-live", []string{"(RectClip64).executeInternal"}, []string{"(RectClip64).addCorner", "(RectClip64).addCornerLocation"}, 5, "corners of the rectangle enter the result only through these calls; when they are dead a path that leaves through one edge and re-enters through another loses the corner between them"),
+			ruleRectFast("C06.fast"),
+			ruleBounds("C06.bounds", []string{"getBounds"}),
+		},
+	})
+}
